@@ -141,7 +141,7 @@ FAMILIES = [
                                defaults={'args': (), 'kwargs': None}, ret=ANY,
                                raises=['InternalError', 'Raised[Reply]'],
                                modifies=[('CS', 'is_crashed'), ('CS', '_ghost_last_reply')],
-                               ensures=['result == self._ghost_last_reply'],
+                               ensures=['result == self._ghost_last_reply', 'not self.is_crashed'],
                                effects=['send'], assumed=False,
                                note='ghost field _ghost_last_reply names the reply of the latest request'),
                'run': FnSpec('CS.run', params=[('inference_state_id', ANY), ('function', ANY), ('args', ANY),
@@ -154,6 +154,7 @@ FAMILIES = [
                                                 effects=['enqueue-delete'],
                                                 modifies=[('CS', '_inference_state_deletion_queue')], assumed=False),
            }),
+    Family('Env14', fields={'_subprocess': Opt(_CS)}, attrs={'_start_executable': ANY, '_env_vars': ANY}),
     Family('Proc', attrs={'stdin': ANY, 'stdout': ANY, 'stderr': Obj('Stream')}),
     Family('Stream', methods={'read': FnSpec('Stream.read', ret=Obj('Bytes'), raises=['Exception'], assumed=True)}),
     Family('Bytes', methods={'decode': FnSpec('bytes.decode', params=[('enc', STR), ('errors', STR)], ret=STR,
@@ -206,11 +207,43 @@ _wrapper = Contract(
     concrete_ensures=['USED and RELEASED'],
 )
 
-CONTRACTS = [_send, _kill, _run, _del_state, _dunder_del, _wrapper]
+def _region_replace(func):
+    """Environment._get_subprocess up to and including the try statement that starts the replacement helper"""
+    out = []
+    for s_ in func.body:
+        out.append(s_)
+        if isinstance(s_, ast.Try):
+            return out
+    return None
+
+
+_get_sub = Contract(
+    id='C14.Environment._get_subprocess', prop='C14',
+    clause='a crashed helper is replaced by a NEW helper that starts from a clean slate (not crashed, nothing queued '
+           'for deletion: ids of the old helper mean nothing to the new one); a healthy helper is reused as it is',
+    file='jedi/api/environment.py', qualname='Environment._get_subprocess', region=_region_replace,
+    params={'self': Obj('Env14')}, families=['Env14', 'CS'], ret=Opt(_CS),
+    raises={'InvalidPythonEnvironment': None},
+    ensures=[
+        'implies(old(self._subprocess) is not None and not old(self._subprocess.is_crashed), '
+        'result is not None and result == old(self._subprocess))',
+        'implies(old(self._subprocess) is None or old(self._subprocess.is_crashed), '
+        'result is None and self._subprocess is not None and not self._subprocess.is_crashed '
+        'and len(self._subprocess._inference_state_deletion_queue) == 0)',
+    ],
+)
+
+CONTRACTS = [_send, _kill, _run, _del_state, _dunder_del, _wrapper, _get_sub]
 
 
 def register(reg):
     reg.add_exception('Raised[Reply]', ('Exception',))
+    reg.names['CompiledSubprocess'] = FnSpec(
+        'CompiledSubprocess', params=[('executable', ANY), ('env_vars', ANY)], defaults={'env_vars': None}, ret=_CS,
+        pure=False, assumed=False,
+        ensures=['not result.is_crashed', 'len(result._inference_state_deletion_queue) == 0'],
+        note='constructor (C14 structural: deque() / is_crashed = False): a new object')
+    reg.names['_get_info'] = FnSpec('_get_info', params=[], ret=ANY, pure=True, assumed=True)
     reg.names['next_reply'] = FnSpec('next_reply', params=[('file', ANY)], ret=Tup(BOOL, ANY, Obj('Reply')), pure=True,
                                      assumed=True, note='ghost: the reply triple the helper wrote for this request')
     reg.names['_add_stderr_to_debug'] = FnSpec('_add_stderr_to_debug', params=[('q', ANY)], ret=None, assumed=True,
